@@ -267,7 +267,9 @@ func ruleCtxArmIn(c *Ctx, r *R, onlyRel string) {
 					if blocks && ci >= 0 && ci < len(call.Call.Args) {
 						nd++
 						mine := true
-						for _, o := range ctxOrigins(call.Call.Args[ci], map[ssa.Value]bool{}) {
+						// (p itself is not traced further to what fn's own callers pass: the question is whether the helper waits on
+						// fn's context, whatever that is)
+						for _, o := range ctxOrigins(call.Call.Args[ci], map[ssa.Value]bool{ssa.Value(p): true}) {
 							if o != ssa.Value(p) && !derivedFromCtx(o, p, 0) {
 								mine = false
 							}
@@ -605,11 +607,19 @@ func rulePipePublish(c *Ctx, r *R) {
 	}
 	// order: store through senderErr, then close(senderDone), both unconditional
 	var storeIn, closeIn ssa.Instruction
+	var storedVal ssa.Value
 	instrs(cl, func(b *ssa.BasicBlock, i int, in ssa.Instruction) {
 		switch x := in.(type) {
 		case *ssa.Store:
 			if strings.HasSuffix(path(x.Addr), ".senderErr") {
 				storeIn = x
+				storedVal = x.Val
+			}
+		case *ssa.Call:
+			// s.senderErr.set(err): the slot is a small cell type with a setter
+			if v, ok := errSlotSetterCall(x); ok {
+				storeIn = x
+				storedVal = v
 			}
 		}
 	})
@@ -622,7 +632,7 @@ func rulePipePublish(c *Ctx, r *R) {
 			closeIn = cs.at
 		}
 	}
-	okOrder := storeIn != nil && closeIn != nil && storeIn.Block().Dominates(closeIn.Block()) && (storeIn.Block() != closeIn.Block() || idxIn(storeIn) < idxIn(closeIn)) && isParamValue(storeIn.(*ssa.Store).Val, cl)
+	okOrder := storeIn != nil && closeIn != nil && storeIn.Block().Dominates(closeIn.Block()) && (storeIn.Block() != closeIn.Block() || idxIn(storeIn) < idxIn(closeIn)) && isParamValue(storedVal, cl)
 	r.ok(okOrder, "stream.PipeSender.Close|store-then-close", cl.Pos(), "*senderErr = err must be stored (the parameter itself) before close(senderDone) on every path: receivers read it right after observing the close")
 	// readers
 	for _, name := range []string{"stream.PipeSender.Send", "stream.PipeSender.TrySend", "stream.pipeStream.Next"} {
@@ -691,12 +701,8 @@ func rulePipePublish(c *Ctx, r *R) {
 		for _, sf := range scan {
 			sf := sf
 			instrs(sf, func(b *ssa.BasicBlock, i int, in ssa.Instruction) {
-				ld, ok := in.(*ssa.UnOp)
-				if !ok || ld.Op != token.MUL {
-					return
-				}
-				inner, ok := ld.X.(*ssa.UnOp)
-				if !ok || inner.Op != token.MUL || !strings.HasSuffix(path(inner.X), ".senderErr") {
+				ld, ok := in.(ssa.Value)
+				if !ok || !errSlotRead(ld) {
 					return
 				}
 				nreads++
@@ -721,7 +727,7 @@ func rulePipePublish(c *Ctx, r *R) {
 				found := false
 				if ld.Referrers() != nil {
 					for _, ref := range *ld.Referrers() {
-						if ret, ok := ref.(*ssa.Return); ok && returnedValue(ret, len(ret.Results)-1) == ssa.Value(ld) {
+						if ret, ok := ref.(*ssa.Return); ok && returnedValue(ret, len(ret.Results)-1) == ld {
 							found = true
 						}
 					}
@@ -777,7 +783,7 @@ func rulePipePublish(c *Ctx, r *R) {
 				if strings.HasSuffix(path(returnedValue(ret, len(ret.Results)-1)), "End") {
 					under := false
 					for _, g := range guardsOf(d.in.Block()) {
-						if cf, ok := g.asCmp(); ok && cf.op == token.EQL && isNilConst(cf.y) && strings.HasSuffix(path(argOf(cf.x, d.calls)), ".senderErr") {
+						if cf, ok := g.asCmp(); ok && cf.op == token.EQL && isNilConst(cf.y) && (strings.HasSuffix(path(argOf(cf.x, d.calls)), ".senderErr") || errSlotRead(argOf(cf.x, d.calls))) {
 							okEnd = true
 							under = true
 						}
@@ -1237,4 +1243,110 @@ func constSelectedReturns(v ssa.Value, from *ssa.BasicBlock) ([]ssa.Value, bool)
 		}
 	})
 	return out, true
+}
+
+
+// errSlotRead: v reads the sender's close error out of the shared slot: *(*s.senderErr), or s.senderErr.get() where get is an
+// accessor of the slot's cell type (one return: a field of its receiver).
+func errSlotRead(v ssa.Value) bool {
+	switch x := v.(type) {
+	case *ssa.UnOp:
+		if x.Op != token.MUL {
+			return false
+		}
+		return isErrSlotPtr(x.X, 0)
+	case *ssa.Call:
+		cal := staticCallee(&x.Call)
+		if cal == nil || cal.Blocks == nil || len(x.Call.Args) != 1 || len(cal.Params) != 1 || curCtx == nil || !curCtx.inModule(cal) {
+			return false
+		}
+		if !isErrSlotPtr(x.Call.Args[0], 0) {
+			return false
+		}
+		rets := returnedBy(cal, 0)
+		if len(rets) != 1 {
+			return false
+		}
+		fl, ok := rets[0].(*ssa.UnOp)
+		if !ok || fl.Op != token.MUL {
+			return false
+		}
+		fa, ok := fl.X.(*ssa.FieldAddr)
+		return ok && fa.X == ssa.Value(cal.Params[0])
+	}
+	return false
+}
+
+// errSlotSetterCall: call is s.senderErr.set(v) where set stores its parameter into a field of its receiver, unconditionally,
+// and does nothing else; returns v.
+func errSlotSetterCall(call *ssa.Call) (ssa.Value, bool) {
+	cal := staticCallee(&call.Call)
+	if cal == nil || cal.Blocks == nil || len(call.Call.Args) != 2 || len(cal.Params) != 2 || len(cal.Blocks) != 1 || curCtx == nil || !curCtx.inModule(cal) {
+		return nil, false
+	}
+	if !isErrSlotPtr(call.Call.Args[0], 0) {
+		return nil, false
+	}
+	stores := 0
+	good := true
+	for _, in := range cal.Blocks[0].Instrs {
+		switch y := in.(type) {
+		case *ssa.Store:
+			fa, ok := y.Addr.(*ssa.FieldAddr)
+			if ok && fa.X == ssa.Value(cal.Params[0]) && y.Val == ssa.Value(cal.Params[1]) {
+				stores++
+			} else {
+				good = false
+			}
+		case *ssa.FieldAddr, *ssa.Return, *ssa.DebugRef:
+		default:
+			good = false
+		}
+	}
+	if good && stores == 1 {
+		return call.Call.Args[1], true
+	}
+	return nil, false
+}
+
+
+// isErrSlotPtr: v is the pointer kept in the senderErr field: a load of that field, or a parameter of an unexported helper
+// that is given it (at its single forwarding call site, or at every call site).
+func isErrSlotPtr(v ssa.Value, d int) bool {
+	if d > 3 {
+		return false
+	}
+	switch x := v.(type) {
+	case *ssa.UnOp:
+		if x.Op != token.MUL {
+			return false
+		}
+		_, isField := x.X.(*ssa.FieldAddr)
+		return isField && strings.HasSuffix(path(x.X), ".senderErr")
+	case *ssa.Parameter:
+		if fv, ok := forwardedParam[x]; ok {
+			return isErrSlotPtr(fv, d+1)
+		}
+		fn := x.Parent()
+		if fn == nil || fn.Parent() != nil || token.IsExported(fn.Name()) || curCtx == nil {
+			return false
+		}
+		idx := -1
+		for i, p := range fn.Params {
+			if p == x {
+				idx = i
+			}
+		}
+		sites := callCommonsOf(curCtx, fn)
+		if idx < 0 || len(sites) == 0 {
+			return false
+		}
+		for _, cc := range sites {
+			if idx >= len(cc.Args) || !isErrSlotPtr(cc.Args[idx], d+1) {
+				return false
+			}
+		}
+		return true
+	}
+	return false
 }
